@@ -116,8 +116,18 @@ BtccExpected(ev) == LET c == Compile(ev.tokens) IN [code |-> 0, out |-> BytesToH
 BtccObserved(ev) == [code |-> ev.code, out |-> ev.out]
 
 (* ---- C14: value transforms, command form (tf name args) and inline form (name(arg)) ---- *)
-TfArgs(ev) == [i \in 1..Len(ev.args) |-> IF ev.args[i].k = "str" THEN <<"str", StrToCodes(ev.args[i].v)>> ELSE <<"data", H(ev.args[i].v)>>]
-TfValue(ev) == Transform(ev.name, TfArgs(ev))
+\* an argument is a string, a byte string, or itself a call name(args) (inline expressions nest: ripemd160(sha256(x)), hex(int(x)));
+\* a number handed on to another transform is its minimal encoding; a failing / unspecified inner call makes the whole expression so
+ApplyTf(name, args) == IF \E i \in 1..Len(args) : args[i] = TfFail THEN TfFail
+                       ELSE IF \E i \in 1..Len(args) : args[i] = TfUnspec THEN TfUnspec
+                       ELSE Transform(name, args)
+RECURSIVE ArgVal(_)
+ArgVal(a) == IF a.k = "str" THEN <<"str", StrToCodes(a.v)>>
+             ELSE IF a.k = "data" THEN <<"data", H(a.v)>>
+             ELSE LET r == ApplyTf(a.name, [i \in 1..Len(a.args) |-> ArgVal(a.args[i])])
+                  IN IF r[1] = "int" THEN <<"data", Encode(r[2])>> ELSE r
+TfArgs(ev) == [i \in 1..Len(ev.args) |-> ArgVal(ev.args[i])]
+TfValue(ev) == ApplyTf(ev.name, TfArgs(ev))
 Render(v) == IF v[1] = "data" THEN BytesToHex(v[2])
              ELSE IF v[1] = "str" THEN "\"" \o CodesToStr(v[2]) \o "\""
              ELSE IF v[1] = "int" THEN (IF IsNeg(v[2]) THEN "-" ELSE "") \o ToString(ToInt(Mag(v[2])))
@@ -148,7 +158,7 @@ Next ==
             (IF TxExpected(ev).ok = "unspec" THEN /\ stats' = [stats EXCEPT !.calls = @ + 1] /\ cov' = cov \cup {<<"Tx", "trailing-bytes">>} /\ UNCHANGED divs
              ELSE Judge(ev, TxExpected(ev), TxObserved(ev), <<"Tx", ev.ok, IF ev.ok THEN ev.haswit ELSE FALSE, IF ev.ok THEN Len(ev.vin) ELSE 0>>))
        ELSE IF ev.e = "Robust" THEN Judge(ev, [robust |-> TRUE], [robust |-> RobustOutcome(ev)], <<"Robust", ev.tool, ev.cls>>)
-       ELSE IF ev.e = "Tf" THEN Judge(ev, TfExpected(ev), TfObserved(ev), <<"Tf", ev.name, ev.form, ev.failed>>)
+       ELSE IF ev.e = "Tf" THEN Judge(ev, TfExpected(ev), TfObserved(ev), <<"Tf", ev.name, ev.form, ev.failed, \E i \in 1..Len(ev.args) : ev.args[i].k = "call">>)
        ELSE IF ev.e = "Btcc" THEN Judge(ev, BtccExpected(ev), BtccObserved(ev), <<"Btcc", ev.kind>>)
        ELSE IF ev.e = "Tap" THEN Judge(ev, TapExpected(ev), TapObserved(ev), <<"Tap", ev.mode, Len(ev.scripts), ev.sighash # "">>)
        \* the leaf hash the debugger announces for a script-path spend (also for leaf versions it then refuses): TapLeaf(version || script), shown reversed
